@@ -267,7 +267,7 @@ int main(int argc, char** argv) {
     //TODO do this only if we had at least one correct name
     //Reinit some data after the update
     // TODO Just the schedules???
-    if (cacheNames.size() > 0)
+    if (cacheNamesStr.size() > 0)
     {
       // Remove last ","
       cacheNamesStr.pop_back();
